@@ -1,14 +1,16 @@
 SPECIFICATION MCSpec
-CONSTANT Variant = "retotal"
+CONSTANT Variant = "resubmit"
 CONSTANT StrictEvents = TRUE
 CONSTANT FixF5 = TRUE
-CONSTANT FixF23 = TRUE
+CONSTANT FixF23 = FALSE
 CONSTANT AddFirst = TRUE
 CONSTANT Procs = {"p1", "p2"}
 CONSTANT Jobs = {"a", "b"}
-CONSTRAINT RetotalQuick
+CONSTRAINT ResubBound
 INVARIANT TypeOK
 INVARIANT Capacity
+INVARIANT RunningHoldFile
+INVARIANT RunningUnderCapacity
 INVARIANT MutualExclusion
 INVARIANT ObserversSurvive
 INVARIANT Informed
